@@ -303,8 +303,12 @@ class Jitter(object):
         """
         self.breakpoints_handler.add_callback(addr, callback)
         self.jit.add_disassembly_splits(addr)
-        # De-jit previously jitted blocks
-        self.jit.updt_automod_code_range(self.vm, [(addr, addr)])
+        # De-jit previously jitted blocks. The pending memory writes (code
+        # modified since the last run) are processed here too: the update
+        # resets the memory access lists
+        mem_range = [(addr, addr)]
+        mem_range += list(self.vm.get_memory_write())
+        self.jit.updt_automod_code_range(self.vm, mem_range)
 
     def set_breakpoint(self, addr, *args):
         """Set callbacks associated with addr.
